@@ -964,3 +964,60 @@ def r9(R):
             for v in vs:
                 R.violation(v.node, v.message, g, v.path)
     R.require(n >= 3, 'iterator classes not found')
+
+
+# ------------------------------------------------------------------ C04.R10
+@rule('C04.R10', 'getTid and load agree on whether an object exists: getTid '
+      'answers only for a record that holds data or whose backpointer '
+      'chain it has walked (the chain may end in an un-creation)',
+      props=['C03'], min_instances=1)
+def r10(R):
+    cls = R.prog.cls(FS)
+    f = R.method(cls, 'getTid')
+    g, b, F = R.cfg(f, cls, max_depth=0)
+    R.instance('FileStorage.getTid')
+    seen = [0]
+
+    def edge(node, st, lab, tgt):
+        a = node.ast
+        if a is not None and node.kind in ('test', 'stmt', 'return') and any(
+                isinstance(c, ast.Call) and dotted(c.func) and
+                dotted(c.func)[-1].startswith('_loadBack')
+                for c in ast.walk(a)):
+            return 'walked'
+        if node.kind == 'test' and lab in ('T', 'F'):
+            for e, truth in implied_atoms(node.ast, lab):
+                if isinstance(e, ast.Attribute) and e.attr == 'plen' and \
+                        truth:
+                    return 'has-data'
+                if isinstance(e, ast.Compare) and len(e.ops) == 1 and \
+                        isinstance(e.left, ast.Attribute) and \
+                        e.left.attr == 'plen' and isinstance(
+                            e.comparators[0], ast.Constant) and \
+                        e.comparators[0].value == 0:
+                    zero = isinstance(e.ops[0], ast.Eq) == truth
+                    if not zero and isinstance(e.ops[0], (ast.Eq,
+                                                          ast.NotEq)):
+                        return 'has-data'
+        return st
+
+    def at(node, st):
+        if node.kind == 'return' and node.frame.parent is None and \
+                node.ast.value is not None:
+            seen[0] += 1
+            if st not in ('has-data', 'walked'):
+                return Violation(
+                    'getTid returns a transaction id for a record that '
+                    'holds no data without having followed its '
+                    'backpointer: for an object whose chain ends in an '
+                    'un-creation record (create, undo, redo, undo) getTid '
+                    'answers while load raises POSKeyError, so checks built '
+                    'on getTid (readCurrent) treat a deleted object as '
+                    'current')
+        return st
+
+    vs, stats = explore(g, 'unknown', at=at, edge=edge)
+    R.count(stats)
+    R.require(seen[0] or vs, 'getTid returns nothing')
+    for v in vs:
+        R.violation(v.node, v.message, g, v.path)
